@@ -785,12 +785,17 @@ class Mismatch(Exception):
         self.signature = signature
 
 
-def read_with_tree(fmt, gtype, text):
-    """('graph', desc) | ('ValueError', message) | ('exception', 'TypeName: message')."""
+def read_with_tree(fmt, gtype, text, reader=None):
+    """('graph', desc) | ('ValueError', message) | ('exception', 'TypeName: message').
+    reader: optional callable(text) -> graph object that hands the text to the tree in another way
+    (another kind of stream, another entry point); default readGraph(StringIO(text), gtype, fmt)."""
     import io
     from cnfgen.graphs import readGraph
     try:
-        H = readGraph(io.StringIO(text), gtype, fmt)
+        if reader is not None:
+            H = reader(text)
+        else:
+            H = readGraph(io.StringIO(text), gtype, fmt)
     except ValueError as e:
         return 'ValueError', str(e)
     except (KeyboardInterrupt, SystemExit, MemoryError):
@@ -800,13 +805,13 @@ def read_with_tree(fmt, gtype, text):
     return 'graph', (H, describe(H, gtype))
 
 
-def judge_inhouse(fmt, gtype, text, ref=None):
+def judge_inhouse(fmt, gtype, text, ref=None, reader=None, how=None):
     """Runs the reader of the tree on the text and compares with the reference reader.
-    Returns (ref, kind) or raises Mismatch."""
+    Returns (ref, kind) or raises Mismatch.  reader / how: see read_with_tree; how is named in the messages."""
     if ref is None:
         ref = ref_read(fmt, gtype, text)
-    kind, val = read_with_tree(fmt, gtype, text)
-    where = '{} read as {}'.format(fmt, gtype)
+    kind, val = read_with_tree(fmt, gtype, text, reader)
+    where = '{} read as {}{}'.format(fmt, gtype, ' ({})'.format(how) if how else '')
     if kind == 'exception':
         raise Mismatch('{}: reader raised {} (only ValueError is allowed) on text {!r}'.format(
             where, val, text), 'exc:' + val.split(':')[0])
